@@ -368,6 +368,33 @@ theorem step_readAll_key {q : Str} {a : FsPath} (hk : keyOf env s q = some a) :
     | none => rfl
     | some b => msimp; cases decodeUtf8 b <;> rfl
 
+/-- `read` (+ `read_to_end`): the stored bytes, whatever they are -/
+theorem step_read_key {q : Str} {a : FsPath} (hk : keyOf env s q = some a) :
+    step env s (.read q) =
+      ((match alLookup a s.entries with
+        | some e => if e.file then
+            (match alLookup a s.files with
+             | some b => Outcome.ok (Val.bytes b)
+             | none => .err .doesNotExist)
+          else .err .isNotFile
+        | none =>
+            (match alLookup a s.files with
+             | some b => Outcome.ok (Val.bytes b)
+             | none => .err .doesNotExist)), s) := by
+  simp only [step, cloneFileM]
+  msimp [absM_of_key hk]
+  cases alLookup a s.entries with
+  | none =>
+    msimp
+    cases alLookup a s.files with
+    | none => rfl
+    | some b => rfl
+  | some e =>
+    cases hf : e.file <;> msimp [hf]
+    cases alLookup a s.files with
+    | none => rfl
+    | some b => rfl
+
 /-- the continuation of a vfs call, by outcome -/
 def contOf (k : Option Val → State → MR) : Outcome Val → State → MR
   | .ok v, s' => k (some v) s'
@@ -460,6 +487,13 @@ theorem step_readAll_state (q : Str) : (step env s (.readAll q)).2 = s := by
   | none =>
     obtain ⟨kk, hkk⟩ := absM_of_none hk
     simp only [step, readAllM, cloneFileM]; msimp [hkk]
+
+theorem step_read_state (q : Str) : (step env s (.read q)).2 = s := by
+  cases hk : keyOf env s q with
+  | some a => rw [step_read_key hk]
+  | none =>
+    obtain ⟨kk, hkk⟩ := absM_of_none hk
+    simp only [step, cloneFileM]; msimp [hkk]
 
 theorem step_readlink_state (q : Str) : (step env s (.readlink q)).2 = s := by
   cases hk : keyOf env s q with
@@ -594,6 +628,16 @@ theorem step_readAll_total (q : Str) : Lemmas.Outcome.Total (step env s (.readAl
   | none =>
     obtain ⟨kk, hkk⟩ := absM_of_none hk
     simp only [step, readAllM, cloneFileM]; msimp [hkk]; exact Lemmas.Outcome.total_err _
+
+theorem step_read_total (q : Str) : Lemmas.Outcome.Total (step env s (.read q)).1 := by
+  cases hk : keyOf env s q with
+  | some a =>
+    rw [step_read_key hk]; simp only
+    repeat' split
+    all_goals first | exact Lemmas.Outcome.total_ok _ | exact Lemmas.Outcome.total_err _
+  | none =>
+    obtain ⟨kk, hkk⟩ := absM_of_none hk
+    simp only [step, cloneFileM]; msimp [hkk]; exact Lemmas.Outcome.total_err _
 
 theorem step_readlink_total (q : Str) : Lemmas.Outcome.Total (step env s (.readlink q)).1 := by
   cases hk : keyOf env s q with
